@@ -191,9 +191,40 @@ def prog_line(spec):
     return "prog exit %s %d" % ("none" if spec.get("code") is None else spec["code"], 1 if spec.get("message") else 0)
 
 
+def reuse_case(case):
+    """HISTORY: one Runner object runs several commands in a row (with / without a timeout, different exit codes,
+    warn on/off); each run must be decided by its own status: return iff status 0 or warn, else UnexpectedExit -
+    and never a timed-out failure when no timeout is in effect or the timer did not fire."""
+    from invoke import Context, Config
+    from invoke.exceptions import UnexpectedExit, CommandTimedOut
+    from fakerunner import Scripted
+    r = Scripted(Context(Config()), finish_when="drained")
+    for i, (rc, warn, timeout) in enumerate(case["runs"]):
+        r._out, r._err, r._exited = [b"o%d" % i], [], rc
+        r._drained = {"out": False, "err": False}
+        kw = {"timeout": timeout} if timeout is not None else {}
+        try:
+            res = r.run("cmd%d" % i, hide=True, in_stream=False, warn=warn, **kw)
+            got = ("return", res.exited)
+        except UnexpectedExit as e:
+            got = ("UnexpectedExit", e.result.exited)
+        except CommandTimedOut as e:
+            got = ("CommandTimedOut", e.result.exited)
+        want = ("return", rc) if (rc == 0 or warn) else ("UnexpectedExit", rc)
+        if got != want:
+            return "run %d of one Runner object (status %d, warn=%s, timeout=%r): got %s, the property demands %s" % (i, rc, warn, timeout, got, want)
+    return None
+
+
 def replay(case):
     import props._c05util as u
     k = case["kind"]
+    if k == "reuse":
+        try:
+            why = common.with_timeout(reuse_case, 60, case)
+        except common.Hang:
+            why = "[hang] the runs did not return"
+        return why is None, why or "ok"
     if k == "fin":
         got, why = check_fin(case)
         return why is None, why or "ok: %s" % got
@@ -350,6 +381,15 @@ def run(ctx):
             if m != got:
                 out.disagree(c, got, m)
         if why:
+            out.fail(c, why)
+    # (e) histories: one Runner object reused for several runs
+    for _ in range(ctx.n(40, 400)):
+        runs = [[rng.choice([0, 0, 1, 3]), rng.random() < 0.5, rng.choice([None, None, 30])] for _ in range(rng.randint(2, 4))]
+        c = {"kind": "reuse", "runs": runs}
+        out.case(c, True)
+        out.hist["reuse"] += 1
+        ok, why = replay(c)
+        if not ok:
             out.fail(c, why)
     out.exhaustive = True
     out.extra["table_obligations"] = 6  # finish_order, finish_probe_agrees/complete, exit_probe_agrees, exit_obj_probe_agrees, exitCodeMap_eq
